@@ -75,7 +75,7 @@ func converged(f *Fabric, n *int) (bool, string) {
 
 func judgeC05(sc Scenario) (key, msg string, nontrivial bool) {
 	r := Execute(sc)
-	defer r.F.Close()
+	defer r.Close()
 	if r.Herr != "" {
 		return "harness", r.Herr, false
 	}
@@ -256,7 +256,7 @@ const grace = 400 * time.Millisecond
 
 func judgeC10(sc Scenario) (key, msg string, nontrivial bool) {
 	r := Execute(sc)
-	defer r.F.Close()
+	defer r.Close()
 	if r.Herr != "" {
 		return "harness", r.Herr, false
 	}
@@ -391,7 +391,7 @@ func opsBrief(ops []OpRec) string {
 
 func judgeC11b(sc Scenario) (key, msg string, nontrivial bool) {
 	r := Execute(sc)
-	defer r.F.Close()
+	defer r.Close()
 	if r.Herr != "" {
 		return "harness", r.Herr, false
 	}
